@@ -1,10 +1,89 @@
+"""C16 -- Boxes are painted in CSS stacking order.
+
+Besides the generic pipeline (lib/corr.run_check) the `pre` step runs the
+source-level tie go/cmd/c16/sortscan on /repo's working tree: every call of a
+sorting function on the z-index lists of html/document/stacking.go is listed
+with file:line and turned into the Coq obligation `sort_sites_ok sites = true`
+(Check/C16.v; generated file .work/C16/SortSites.v, compiled on every run): the
+theorems of Properties/C16.v hold for any sort meeting sort.SliceStable's
+contract, so a call of a sort without the stability contract leaves their
+hypothesis undischarged.  The offending sites are reported at the end of the
+run, as `no-failing-input-found` only when the runtime stream (documents with
+13-40 tied child contexts per list) found no concrete failing input.
+"""
+import json
+import os
+import sys
+
+ROOT = os.path.dirname(os.path.dirname(os.path.abspath(__file__)))
+sys.path.insert(0, ROOT)
+from lib import corr  # noqa: E402
+
+SCAN_BIN = os.path.join(corr.WORK, "bin", "c16sortscan")
+SCAN_JSON = os.path.join(corr.WORK, "C16", "sortsites.json")
+SCAN_COQ = os.path.join(corr.WORK, "C16", "SortSites.v")
+
+
+def pre(rep):
+    os.makedirs(os.path.join(corr.WORK, "C16"), exist_ok=True)
+    os.makedirs(os.path.dirname(SCAN_BIN), exist_ok=True)
+    cov = {}
+    rc, out = corr.sh(["go", "build", "-o", SCAN_BIN, "./cmd/c16/sortscan"], cwd=os.path.join(ROOT, "go"), env=corr.GOENV, timeout=600)
+    if rc != 0:
+        rep.violation({"property": "C16", "broken_tie": "go/cmd/c16/sortscan does not build", "log_tail": out[-2000:]},
+                      name="sortscan-build", no_input=True)
+        return {"coverage": cov}
+    for f in (SCAN_JSON, SCAN_COQ):
+        if os.path.exists(f):
+            os.remove(f)
+    rc, out = corr.sh([SCAN_BIN, "-repo", corr.REPO, "-json", SCAN_JSON, "-coq", SCAN_COQ], timeout=300)
+    if rc != 0:
+        rep.violation({"property": "C16", "broken_tie": "go/cmd/c16/sortscan failed on /repo's working tree (html/document does not parse, or stacking.go is gone)",
+                       "log_tail": out[-2000:]}, name="sortscan-run", no_input=True)
+        return {"coverage": cov}
+    sites = json.load(open(SCAN_JSON)).get("sites") or []
+    unstable = [s for s in sites if not s["stable"]]
+    missing = [name for bit, name in ((1, "negativeZContexts"), (2, "positiveZContexts"))
+               if not any(s["stable"] and s["list"] & bit for s in sites)]
+    cov["sort_call_sites"] = {"sites": ["%s:%d %s(%s)" % (s["file"], s["line"], s["call"], s["arg"]) for s in sites],
+                              "unstable": len(unstable), "lists_without_stable_sort": missing}
+    orig_finish = rep.finish
+
+    def finish(level, coverage, assumptions):
+        runtime = list(rep.violations)
+        # the generated obligation, checked by Coq (needs Check/C16.vo, built by now)
+        rc2, out2 = corr.sh(["coqc", "-Q", "theories", "Verif", "-w", "none", "-o", SCAN_COQ[:-2] + ".vo", SCAN_COQ],
+                            cwd=corr.COQ, timeout=600)
+        coverage.setdefault("sort_call_sites", cov.get("sort_call_sites", {}))["coq_obligation_stacking_sorts_are_stable"] = (rc2 == 0)
+        have_check = os.path.exists(os.path.join(corr.COQ, "theories", "Check", "C16.vo"))
+        if have_check and (rc2 == 0) != (not unstable):
+            rep.violation({"property": "C16", "broken_tie": "sortscan's JSON report and its generated Coq obligation disagree",
+                           "sites": sites, "coqc_tail": out2[-1500:]}, name="sortscan-inconsistent", no_input=True)
+        if unstable:
+            why = "theorem hypothesis `z_then_tree_order css_level zsort` (C16_stable_partition_sort, C16_paint_order_spec, C16_paint_page_spec) " \
+                  "is no longer discharged for the code: the obligation stacking_sorts_are_stable (sort_sites_ok sites = true) fails"
+            for s in unstable[:4]:
+                rep.violation({"property": "C16",
+                               "broken": "%s is called on a z-index list; its contract does not include stability "
+                                         "(equal z-index must keep tree order: CSS 2.1 Appendix E steps 3 and 9); %s" % (s["call"], why),
+                               "site": "%s:%d" % (s["file"], s["line"]), "call": "%s(%s, ...)" % (s["call"], s["arg"]), "function": s["func"],
+                               "failing_inputs_found_by_runtime_stream": runtime,
+                               "how_to_replay": "/verif/.work/bin/c16sortscan -repo /repo -json /dev/stdout"},
+                              name="sortsite-%s-%d" % (s["file"].replace("/", "_"), s["line"]), no_input=not runtime)
+        return orig_finish(level, coverage, assumptions)
+    rep.finish = finish
+    return {"coverage": cov}
+
+
 SPEC = {
     "id": "C16",
     "harness": "c16",
     "n": {"quick": 1000, "thorough": 20000},
     "shard": 100,
+    "pre": pre,
     "skip_codes": (2, 7),
     "trusted_base": [
+        "source-level tie go/cmd/c16/sortscan is SYNTACTIC (go/parser): it sees calls sort.X / slices.X in html/document/stacking.go and calls elsewhere in the package whose arguments name negativeZContexts / positiveZContexts; a hand-written or aliased sort is only caught by the runtime stream of wide stacking contexts",
         "sort.SliceStable's contract (result sorted by less, a permutation, equal elements keep their order) is trusted, not its algorithm: Base/SortStable.v proves that the contract determines the result (C16_stable_sort_unique), the model uses the insertion sort proved to satisfy it",
         "the projection of the laid-out Go box tree to Draw/Stacking.v's abstract `box` (go/cmd/c16/main.go `project`: Go type -> kind, style predicates position/z-index/float/opacity/transform/overflow, AbsolutePlaceholder unwrapped, which of a box's events can reach the backend) and the translation of the backend trace to events (fills / texts named by the unique colours the generator gives every element, opacity groups by their unique opacity value, transforms by their unique translation, overflow clips by the padding-box rectangle of the clipping box)",
         "/repo hook html/document/verif_export_c16.go (Page.VerifPageBox)",
@@ -26,7 +105,8 @@ SPEC = {
         "5": "implementation = model, but both differ from Appendix E instantiated with the implementation's stacking contexts (contradicts C16_paint_page_spec unless the tree is outside wf_shape)",
         "8": "a statement of Properties/C16.v that is proved only in part (C16_every_box_painted_once_statement, C16_per_box_order_statement, C16_effects_bracket_subtree_statement) is FALSE on the model's events of this tree (unique ids)",
         "7": "all comparisons agree but the laid-out tree is outside wf_shape (hypothesis of the theorems): informational, counted as skipped",
-        "6": "implementation = model = Appendix E with overflow != visible forming a stacking context, but the order of fills/texts differs from Appendix E with CSS's own stacking contexts (known finding overflow-forms-stacking-context)",
+        "6": "implementation = model = Appendix E with overflow != visible forming a stacking context (code 5's comparison succeeded), the tree contains an overflow != visible box that is not a CSS stacking context, and the order of fills/texts differs from Appendix E with CSS's own stacking contexts ONLY by events of the sub-trees of those boxes (known finding overflow-forms-stacking-context)",
+        "9": "implementation = model = Appendix E with the implementation's stacking contexts, but the order of fills/texts differs from Appendix E with CSS's own stacking contexts in a way NOT confined to the sub-trees of overflow != visible boxes (or without any such box: contradicts C16_overflow_only_difference)",
     },
     "theorems_for_kind": {
         "gen": "C16_paint_page_spec / C16_paint_order_spec / C16_stable_partition_sort",
